@@ -126,15 +126,23 @@ Proof.
     + unfold same_cfg in *. intuition congruence.
 Qed.
 
-(* restore: a freshly constructed scheduler (any fresh state s') that loads the state_dict of s
-   IS s -- including the live scheduled value -- so every continuation coincides. *)
-Theorem noise_restore_exact (s s' : ss T) :
-  noise_load_state_dict s' (noise_state_dict s) = s.
-Proof. destruct s; reflexivity. Qed.
+(* restore.  state_dict() holds every scheduler field but NOT the live scheduled value, which
+   lives on the optimizer.  Loading it into a fresh scheduler s' therefore reproduces s exactly
+   iff the fresh optimizer already carries the same live value (PARTIAL: the full statement
+   "a restored scheduler continues the same trajectory" is refuted in Findings/C17.v). *)
+Theorem noise_restore_exact_partial (s s' : ss T) :
+  f_oval s' = f_oval s -> noise_load_state_dict s' (noise_state_dict s) = s.
+Proof. intros H. destruct s, s'; cbn in *. now subst. Qed.
 
-Theorem noise_restore_continues step k (s s' : ss T) :
-  steps step k (noise_load_state_dict s' (noise_state_dict s)) = steps step k s.
-Proof. now rewrite noise_restore_exact. Qed.
+Theorem noise_restore_fields (s s' : ss T) :
+  let r := noise_load_state_dict s' (noise_state_dict s) in
+  f_last_epoch r = f_last_epoch s /\ same_cfg r s /\ f_oval r = f_oval s'.
+Proof. destruct s, s'; cbn; unfold same_cfg; cbn; repeat split. Qed.
+
+(* a Lambda schedule is correct again from its next step on: the base value is part of its state *)
+Theorem noise_lambda_restore_next (s s' : ss T) :
+  noise_step noise_lambda_get (noise_load_state_dict s' (noise_state_dict s)) = noise_step noise_lambda_get s.
+Proof. destruct s, s'; reflexivity. Qed.
 
 (* ---------------- grad-clip schedulers (same shapes, other attribute) ---------------- *)
 
@@ -235,8 +243,12 @@ Proof.
     + unfold same_cfg in *. intuition congruence.
 Qed.
 
-Theorem clip_restore_exact (s s' : ss T) :
-  clip_load_state_dict s' (clip_state_dict s) = s.
-Proof. destruct s; reflexivity. Qed.
+Theorem clip_restore_exact_partial (s s' : ss T) :
+  f_oval s' = f_oval s -> clip_load_state_dict s' (clip_state_dict s) = s.
+Proof. intros H. destruct s, s'; cbn in *. now subst. Qed.
+
+Theorem clip_lambda_restore_next (s s' : ss T) :
+  clip_step clip_lambda_get (clip_load_state_dict s' (clip_state_dict s)) = clip_step clip_lambda_get s.
+Proof. destruct s, s'; reflexivity. Qed.
 
 End P.
